@@ -299,7 +299,7 @@ pub fn prove_rejects<C: Pv>(
         circuit,
         traces,
         &p3_circuit_prover::TablePacking::default(),
-        &crate::pv::NpoSel { recompose, debug_lookups: false, poseidon2: None },
+        &crate::pv::NpoSel { recompose, debug_lookups: false, poseidon2: None, poseidon1: None },
     );
     Some(r.is_err())
 }
